@@ -108,7 +108,7 @@ class Sequence:
         self.len = len(seq)
         self.chargePattern = chargePattern
 
-        if(chargePattern == []):
+        if len(chargePattern) == 0:
             for i in np.arange(0, self.len):
                 if(lkupTab.lookUpCharge(self.seq[i]) > 0):
                     chargePattern = np.append(chargePattern, 1)
